@@ -122,7 +122,7 @@ pub fn emit_step<T: Sc>(out: &mut Out, cid: &str, prop: &str, target: &AnyTarget
         tr.n_alpha,
         parts.join(" | "),
         if with_stat { format!("{} ", T::from64(stat).tok()) } else { String::new() },
-        tr.pos1.iter().map(|x| T::from64(*x).tok()).collect::<Vec<_>>().join(" ")
+        tr.pos1.iter().map(|x| if target.exact_params() { T::from64(*x).tok_tight() } else { T::from64(*x).tok() }).collect::<Vec<_>>().join(" ")
     );
     out.case(case, line);
     out.count("transitions");
@@ -269,7 +269,7 @@ where
         let ev = verif_hooks::tl_drain();
         let (minus, plus, prime, n_prime, s_prime, alpha, n_alpha) = (vec1::<T, B>(&res.0), vec1::<T, B>(&res.3), vec1::<T, B>(&res.6), res.9, res.10, res.11, res.12);
         let hx = |v: &[f64]| v.iter().map(|x| T::from64(*x).hex()).collect::<Vec<_>>().join(" ");
-        let tk = |v: &[f64]| v.iter().map(|x| T::from64(*x).tok()).collect::<Vec<_>>().join(" ");
+        let tk = |v: &[f64]| v.iter().map(|x| if target.exact_params() { T::from64(*x).tok_tight() } else { T::from64(*x).tok() }).collect::<Vec<_>>().join(" ");
         out.case(
             format!("c03t {id} {} {} {v} {j} ; {} ; {} ; {} ; {} {} ; {}", T::NAME, T::from64(eps).hex(), target.spec::<T>(), hx(&pos), hx(&mom), logu.hex(), joint0.hex(),
                 sel.iter().map(|x| h64(*x)).collect::<Vec<_>>().join(" ")),
